@@ -226,7 +226,7 @@ def coverage_guided(ctx):
     corpus = [b'\x00' * 8 + D.HEADER_START + n.encode() + b' ' * 8 + b'\x00' * 4 + (60).to_bytes(4, 'big') + b'\x00' * 8
               for n in D.BUFFER_NAMES]
     corpus.append(b''.join(corpus[:3]))
-    return fuzz.campaign('coverage-guided', 'dump', corpus, runs=40000, seed=ctx.seed, jobs=4, max_len=512,
+    return fuzz.campaign('coverage-guided', 'dump', corpus, runs=10000, seed=ctx.seed, jobs=4, max_len=512,
                          sig_prefix='C17.fuzz')
 
 
